@@ -1,5 +1,6 @@
 fn main() {
-    let e = cat_quick::entries();
+    let entries = cat_quick::entries();
     let cat = mc_desc::catalogue::build(mc_desc::catalogue::Tier::Quick);
-    println!("entries {} roots {} items {}", e.len(), cat.roots.len(), cat.items.len());
+    assert_eq!(entries.len(), cat.roots.len());
+    std::process::exit(mc_core::main_with(entries, cat));
 }
